@@ -2,6 +2,7 @@
 from ..oracles import boolvec
 from . import compilecases as K
 from . import compilecheck as CC
+from ..monitors import shadow
 
 ID = "C02"
 LEVEL = "exploration"
@@ -11,9 +12,9 @@ RULE = (
     "compared with the value of the very expression list handed to the compiler; non-trivial = circuit has >=1 gate and some return "
     "expression is non-constant; distinct by (source/list text, profile)"
 )
-DECIDING = ["compiled", "outputs_compared", "cache_or_reuse_events"]
+DECIDING = ["compiled", "outputs_compared", "cache_or_reuse_events", "helper_calls_contract_checked"]
 ASSUMPTIONS = ["input qubits are 0..n-1 in argument-bit order; other qubits start at zero", "expected values come from the expression list after the optimizer (C01/C04 are judged separately)"]
-CASE_TIMEOUT = {"quick": 60, "thorough": 120}
+CASE_TIMEOUT = {"quick": 25, "thorough": 90}
 
 
 def cases(tier, seed):
@@ -26,7 +27,9 @@ def check(case):
     key = (case.get("src") or str(case.get("list"))) + case["profile"]
     nontrivial = False
     evals = 0
+    shadow.install()
     for unc in (True, False):
+        shadow.arm(True)
         try:
             qc, names, rets, exprs, qf = K.compile_case(case, unc)
         except Exception as e:
@@ -46,6 +49,10 @@ def check(case):
         cnt["outputs_compared"] = cnt.get("outputs_compared", 0) + len(rets)
         cnt["cache_or_reuse_events"] = cnt.get("cache_or_reuse_events", 0) + len(o.log.get("reuse", [])) + len(o.log.get("inline", []))
         cnt["gates"] = cnt.get("gates", 0) + o.ngates
+        events = list(shadow.STATE["events"])
+        cnt["helper_calls_contract_checked"] = cnt.get("helper_calls_contract_checked", 0) + shadow.STATE["calls"]
+        cnt["helper_contract_breaks_recorded"] = cnt.get("helper_contract_breaks_recorded", 0) + len(events)
+        shadow.arm(False)
         evals += 1 << len(names)
         if o.ngates > 0:
             nontrivial = True
@@ -70,6 +77,6 @@ def check(case):
         for r, q, row, nrows in o.wrong_out[:2]:
             asg = {nm: (row >> i) & 1 for i, nm in enumerate(names)}
             fails.append({"kind": "wrong_output", "msg": f"{tag}: qubit {q} mapped to {r} ends different from the expression's value on {nrows} inputs, first {asg}; "
-                          f"exprs={[(str(s), str(e)) for s, e in exprs][:6]} gates={[(type(g).__name__, w) for g, w, p in qc.gates][:40]}", "pred": pred})
+                          f"first helper that broke its contract: {events[0] if events else None}; exprs={[(str(s), str(e)[:200]) for s, e in exprs][:6]} gates={[(type(g).__name__, w) for g, w, p in qc.gates][:40]}", "pred": pred})
     return {"status": "checked", "key": key, "nontrivial": nontrivial, "evals": evals, "fails": fails[:4], "counters": cnt, "cov": cov,
             "sample": case.get("src") or {"inputs": case["inputs"], "list": case["list"], "profile": case["profile"]}}
